@@ -92,6 +92,8 @@ fn value_of(op: Op, l: K, a: &str, b: &str) -> Option<String> {
 
 fn err_case(kind: &str, src: String, lines: u32, parts: Vec<String>, note: String) -> (Case, bool) {
     let mut e = Expect::err(vec![]);
+    // Some contexts print before they reach the offending value.
+    e.stdout = None;
     e.diag = vec![DiagPred::WellFormed{max_line: lines}];
     if !parts.is_empty() {
         e.diag.push(DiagPred::MsgContains(parts));
@@ -207,6 +209,9 @@ fn contexts() -> Vec<(&'static str, &'static str, Vec<K>, Option<&'static str>)>
         ("if condition", "if @ {\n    print(1)\n}\nprint(2)\n", vec![K::Bool], None),
         ("else-if condition", "if false {\n    print(1)\n} else if @ {\n    print(3)\n}\nprint(2)\n", vec![K::Bool], None),
         ("while condition", "n := 0\nwhile @ {\n    n += 1\n    if n > 1 {\n        break\n    }\n}\nprint(n)\n", vec![K::Bool], None),
+        ("while condition on a later pass", "fl := [true, @]\ni := 0\nwhile fl[i] {\n    i += 1\n    if i > 1 {\n        break\n    }\n}\nprint(i)\n", vec![K::Bool], None),
+        ("while condition after continue", "fl := [true, @]\ni := 0\nwhile fl[i] {\n    i += 1\n    if i > 1 {\n        break\n    }\n    continue\n}\nprint(i)\n", vec![K::Bool], None),
+        ("if condition on a later iteration", "for [i, c] in [true, @] {\n    if c {\n        print(i)\n    }\n}\n", vec![K::Bool], None),
         ("list index", "print([7, 8, 9, 1, 2, 3][@])\n", vec![K::Int], None),
         ("string index", "print(\"abcdef\"[@])\n", vec![K::Int], None),
         ("object index", "print({\"\": 1, \"ab\": 2}[@])\n", vec![K::Str], None),
@@ -359,7 +364,7 @@ pub fn got_type_ok(stderr: &str, want: &str) -> Result<(), String> {
 }
 
 pub fn run(ctx: &Ctx) {
-    ctx.set_rule("the full matrix: 15 binary operators x 8 x 8 ordered kinds (plain form), 5 arithmetic operators x 64 x 4 op-assign target forms, 32 typed contexts x 8 kinds x 2 representatives, type functions x kinds; oracle: the table in the property statement (in domain => value checked; otherwise exit 103 naming operator and both operand types in order with the names ->type() uses). Every cell is non-trivial; distinct = distinct cells");
+    ctx.set_rule("the full matrix: 15 binary operators x 8 x 8 ordered kinds (plain form), 5 arithmetic operators x 64 x 4 op-assign target forms, 35 typed contexts x 8 kinds x 2 representatives, type functions x kinds; oracle: the table in the property statement (in domain => value checked; otherwise exit 103 naming operator and both operand types in order with the names ->type() uses). Every cell is non-trivial; distinct = distinct cells");
     ctx.replay_corpus(None);
     let mut cases = vec![];
     operator_matrix(ctx, &mut cases);
